@@ -1115,7 +1115,25 @@ func (c *Ctx) JSONDoc() *Doc {
 	o.Bodies, o.AlwaysBody, o.RichResponses = true, true, true
 	o.Methods = []string{"POST", "PUT", "PATCH", "GET"}
 	o.SchemaDepth = 3
-	return c.Composition(o)
+	d := c.Composition(o)
+	// a nullable component list of objects without required properties, held by a
+	// property: its smallest non-null values are [] and [{}]
+	if rapid.IntRange(0, 2).Draw(c.T, "nullable_list_component") == 0 {
+		item := &Schema{Type: "object", Properties: map[string]*Schema{c.SafeName("p", "nlprop"): {Type: "string"}, c.SafeName("p", "nlprop"): {Type: "integer", Format: "int32"}}}
+		list := &Schema{Type: "array", Nullable: true, Items: item}
+		if c.AllowSchema(list, "component") {
+			ref := c.AddSchema(c.CompName("Rows", "nullablelist"), list)
+			if c.AllowSchema(ref, "property") {
+				holder := &Schema{Type: "object", Properties: map[string]*Schema{c.SafeName("p", "nlholder"): ref, c.SafeName("p", "nlholder"): ref}}
+				holder.Required = []string{SortedKeys(holder.Properties)[0]}
+				c.AddSchema(c.CompName("Holder", "nullablelistholder"), holder)
+				c.Tag("json:nullable-list-component")
+			} else {
+				delete(d.Components.Schemas, strings.TrimPrefix(ref.Ref, RefSchemas))
+			}
+		}
+	}
+	return d
 }
 
 // ---------------------------------------------------------------------------
